@@ -47,6 +47,41 @@ type lgCluster struct {
 	hb     map[int]bool
 	calls  map[[2]uint64]*evDriven // component 102: the replicateTo call in progress per (leader, follower)
 	out    map[[2]uint64]int       // ... and the request it waits for
+	futs   []*lgFut                // component 102: the Apply calls issued, in order
+}
+
+// an Apply call and what became of it
+type lgFut struct {
+	data     uint64
+	f        raft.ApplyFuture
+	done     chan struct{}
+	err      error
+	idx      uint64
+	reported bool
+}
+
+// the Apply calls acknowledged without error since the last observation: (index, payload), by index
+func (c *lgCluster) newAcks() []uint64 {
+	var got [][2]uint64
+	for _, x := range c.futs {
+		if x.reported {
+			continue
+		}
+		select {
+		case <-x.done:
+			x.reported = true
+			if x.err == nil {
+				got = append(got, [2]uint64{x.idx, x.data})
+			}
+		default:
+		}
+	}
+	sort.Slice(got, func(a, b int) bool { return got[a][0] < got[b][0] })
+	out := []uint64{uint64(len(got))}
+	for _, g := range got {
+		out = append(out, g[0], g[1])
+	}
+	return out
 }
 
 // start the REAL replicateTo(j, last) at leader i in its own goroutine; returns once it has
@@ -183,6 +218,9 @@ func (c *lgCluster) observe() []uint64 {
 			out = append(out, l.Index, l.Term)
 		}
 	}
+	if c.commit {
+		out = append(out, c.newAcks()...)
+	}
 	return out
 }
 
@@ -194,7 +232,12 @@ func (c *lgCluster) doRepl(op []uint64) bool {
 			return false
 		}
 		li := n.r.LastIndex()
-		n.r.Apply(dataOf(op[2]), 0) // the future never completes: nothing is acknowledged in these runs
+		f := n.r.Apply(dataOf(op[2]), 0)
+		if c.commit {
+			x := &lgFut{data: op[2], f: f, done: make(chan struct{})}
+			c.futs = append(c.futs, x)
+			go func() { x.err = f.Error(); x.idx = f.Index(); close(x.done) }()
+		}
 		return c17wait(func() bool { return n.r.LastIndex() > li || n.r.State() != raft.Leader }, 2*time.Second)
 	case 8:
 		n := c.nodes[op[1]]
@@ -456,9 +499,21 @@ func c101Gen(r *rng, n int, steps int, commit bool) (in []uint64, obs []uint64, 
 						last = nx + 3
 					}
 				}
+				nmsgs := len(c.msgs)
 				emit([]uint64{8, i, j, nx, last})
-				if r.chance(2, 3) {
+				if len(c.msgs) > nmsgs && r.chance(2, 3) {
+					nans := len(c.ans)
 					emit([]uint64{10, uint64(len(c.msgs) - 1)})
+					if commit && len(c.ans) > nans && r.chance(3, 4) {
+						// the whole exchange at once: the answer returns to the blocked call
+						emit([]uint64{12, uint64(len(c.ans) - 1)})
+						for key, d := range c.calls {
+							if _, waiting := c.out[key]; !waiting {
+								emit([]uint64{8, key[0], key[1], d.req.PrevLogEntry + 1, d.last})
+								emit([]uint64{13, key[0], key[1]})
+							}
+						}
+					}
 				}
 			default:
 				emit([]uint64{9, i, j})
